@@ -6,6 +6,9 @@ ECALL = "statham.schema.elements.base:Element.__call__"
 WF = ("not attr_absent(self,'items') and not attr_absent(self,'additional') and is_obj(self.additional) and "
       "(is_obj(self.items) or (is_list(self.items) and forall(lambda j: is_obj(self.items[j]), len(self.items))))")
 
+from pyvc.contracts import macro
+macro("items_wf", ["self"], WF)
+
 # item_schema(I, j): the element governing index j (Draft-6 6.9/6.10)
 ITEM = "(self.items if not is_list(self.items) else (self.items[index] if index < len(self.items) else self.additional))"
 
